@@ -242,7 +242,7 @@ Proof.
 Qed.
 
 Definition op_opts (p : op) : nat :=
-  match p with Transfer o _ | CrashT o _ _ | Reader o _ _ _ | Reader2 o _ _ _ _ => o | _ => 0 end.
+  match p with Transfer o _ | CrashT o _ _ | Reader o _ _ _ | Reader2 o _ _ _ _ | Gap o _ _ _ => o | _ => 0 end.
 
 (* every output of an op is good for the options its caller asked for *)
 Definition outs_good (w : world) (p : op) (outs : list outcome) : Prop :=
@@ -270,7 +270,7 @@ Qed.
 Lemma step_op_good t w p : routes_ok t = true -> Inv w ->
   outs_good w p (snd (step_op t w p)) /\ Inv (fst (step_op t w p)).
 Proof.
-  intros Hr Hi. destruct p as [| |o e|o e j|j|o e e' j|oa ob ea eb lb|o e ea eb j]; cbn [step_op op_opts outs_good].
+  intros Hr Hi. destruct p as [| |o e|o e j|j|o e e' j|oa ob ea eb lb|o e ea eb j|o e late sf]; cbn [step_op op_opts outs_good].
   - (* Edit *) split; [constructor|]. destruct Hi as [Hc Hf]. split; [cbn; lia|]. cbn.
     destruct (cfile w) as [[bs mt]|]; [|exact I].
     destruct Hf as (Hmt & vr & o & s & suf & Hd & Hs). split; [lia|].
@@ -312,6 +312,14 @@ Proof.
     + destruct (two_good t w o o ea eb true Hr Hi) as ((ra & rb & E & Ga & Gb) & I').
       destruct (two t w o o ea eb true) as [w' rs]. cbn [fst snd] in *. subst rs.
       split; [|exact I']. cbn [app]. repeat constructor; auto.
+  - (* Gap *)
+    assert (In0 : Inv (set_cfile w None)) by (destruct Hi as [Hc _]; split; [exact Hc|exact I]).
+    unfold gap. destruct late.
+    + pose proof (decide_good t w o e Hr Hi) as G. destruct (decide t w o e) as [r wr]. cbn [fst snd] in *.
+      split; [repeat constructor; exact G|]. destruct wr, sf; cbn [andb negb]; try exact In0. unfold full_write; apply Inv_partial, Hi.
+    + destruct (transfer_good t (set_cfile w None) o e Hr In0) as (G & I' & _).
+      destruct (transfer t (set_cfile w None) o e) as [w' r]. cbn [fst snd] in *.
+      split; [repeat constructor; exact G|exact I'].
 Qed.
 
 Fixpoint all_good (t : tables) (w : world) (h : list op) : Prop :=
